@@ -196,7 +196,8 @@ def build_model(dumps=None, hd=None, all_worker=False):
             for (k, h, en) in accs:
                 for m in h:
                     cnt[m] = cnt.get(m, 0) + 1
-            guards[l] = max(sorted(cnt), key=lambda m: cnt[m]) if cnt else None
+            own = [m for m in sorted(cnt) if m.rsplit("::", 1)[0] == l.rsplit("::", 1)[0].replace("->*", "")]
+            guards[l] = max(own or sorted(cnt), key=lambda m: cnt[m]) if cnt else None
             guard_notes[l] = "NO COMMON MUTEX over %d worker accesses (%d writes)" % (len(accs), len(writes))
     violations = []
     for e in worker:
@@ -402,6 +403,48 @@ def check_public_fields(M):
                         line = text.count("\n", 0, m.start()) + 1
                         bad.append("public data field %s::%s is accessed through an object expression at %s:%d" % (cls, f["name"], rel, line))
     return bad
+
+
+SYNC_ALLOWED = {("externals/simplecpp/simplecpp.cpp", "m_mutex"): "NonExistingFilesCache, inside #ifdef SIMPLECPP_WINDOWS (not compiled on this platform)"}
+
+
+def check_sync_inventory(M):
+    """every mutex declared in lib/ cli/ frontend/ externals is a lock-protected shared object: it must be one the translator
+    extracted (a mutex member of an extracted class or a global mutex that occurs in the table), otherwise a new shared object
+    exists whose lock discipline nobody checks"""
+    bad, inv = [], []
+    if not M["sites"]:
+        return bad, inv
+    known = set()
+    for cls, c in M["ex"].classes.items():
+        for f in c["fields"]:
+            if f.get("role") == "mutex":
+                known.add(f["name"])
+    for m in M["mtxs"]:
+        if m.startswith("global::"):
+            known.add(m.split("::", 1)[1])
+    texts = dict(M["sites"].files)
+    for d in ("externals/simplecpp", "externals/tinyxml2", "externals/picojson"):
+        dp = os.path.join(REPO, d)
+        for fn in sorted(os.listdir(dp)):
+            if fn.endswith((".cpp", ".h")):
+                texts["%s/%s" % (d, fn)] = X.strip_comments(open(os.path.join(dp, fn), errors="replace").read())
+    for rel, text in sorted(texts.items()):
+        if rel.startswith("lib/verifhook"):
+            continue
+        for m in re.finditer(r"\bstd::(?:recursive_|shared_|timed_|recursive_timed_|shared_timed_)?mutex\s+(\w+)\s*[;{=]", text):
+            line = text.count("\n", 0, m.start()) + 1
+            name = m.group(1)
+            ok = name in known or (rel, name) in SYNC_ALLOWED
+            inv.append("%s:%d mutex %s%s" % (rel, line, name, "" if name in known else " — " + SYNC_ALLOWED.get((rel, name), "NOT EXTRACTED")))
+            if not ok:
+                bad.append("%s:%d: mutex %s guards a shared object that is not in the extracted lock table" % (rel, line, name))
+        for m in re.finditer(r"\b(thread_local|std::condition_variable|std::call_once|std::once_flag|pthread_\w+|std::atomic\w*\s*<[^;]*>\s+\w+|std::atomic_\w+\s+\w+)", text):
+            if rel.endswith(("keywords.cpp", "tokenize.cpp", "checkstl.cpp")) and m.group(1) == "thread_local":
+                continue
+            line = text.count("\n", 0, m.start()) + 1
+            inv.append("%s:%d %s" % (rel, line, " ".join(m.group(0).split())[:60]))
+    return bad, inv
 
 
 def check_member_pointers(M):
@@ -865,6 +908,8 @@ def tsan_cli(ctx, res, M, exe, runs):
         for o in opts:
             if o.startswith("--showtime") or o.startswith("--cppcheck-build-dir") or o.startswith("--project") or o == "--inline-suppr":
                 res.count("tsan:" + o.split("=")[0] + ("=" + o.split("=")[1] if o.startswith("--showtime") else ""))
+        if "cppcheck: error:" in r.get("stdout", "") + r.get("stderr", ""):
+            res.oblig("tsan:run-%d-options" % i, False, "machinery", "cppcheck rejected the command line %s: %s" % (opts, (r.get("stdout", "") + r.get("stderr", ""))[-300:]))
         if not r["started"] or r["rc"] == -999:
             res.oblig("tsan:run-%d" % i, False, "machinery", "the -fsanitize=thread binary did not run: %s" % r["stderr"][-400:])
             continue
@@ -874,7 +919,7 @@ def tsan_cli(ctx, res, M, exe, runs):
             if key in seen:
                 continue
             seen[key] = True
-            replay = dict(kind="tsan-cli", project=proj, opts=opts, jobs=jobs, sched_seed=sd, report=rep["raw"][:6000], key=key,
+            replay = dict(kind="tsan-cli", cmd="VERIF_SCHED_SEED=%d %s" % (sd, " ".join(r["cmd"])), project=proj, opts=opts, jobs=jobs, sched_seed=sd, report=rep["raw"][:6000], key=key,
                           touched=[t["name"] for t in touched])
             if rep["kind"] != "data race":
                 res.violation("ThreadSanitizer: %s in `cppcheck -j%d --executor=thread %s` (%s)" % (rep["kind"], jobs, " ".join(opts), key), replay,
@@ -963,7 +1008,7 @@ def tsan_pairs(ctx, res, M):
             mm["static"] for mm in M["ex"].classes[cls]["methods"] if mm["name"] == m)]
         res.extra.setdefault("tsan_pairs", {})[cls] = dict(worker_phase_methods=wm, not_in_harness=missing)
         pairs = [(a, b) for i, a in enumerate(wm) for b in wm[i:]]
-        if ctx.tier != "thorough":
+        if ctx.tier != "thorough" and len(pairs) > 8:
             # quick tier: a seeded sample in which every worker-phase member function occurs at least twice, shorter loops
             ctx.rng.shuffle(pairs)
             cnt = {m: 0 for m in wm}
@@ -1015,9 +1060,20 @@ def thorough_runs(ctx):
     sd = ctx.seed * 1000
     for i, opts in enumerate(TS.OPTION_SETS):
         runs.append((opts, [4, 2, 8, 3][i % 4], sd + i + 1))
-    # second pass over the option sets that exercise the shared lists hardest, other seeds / job counts
-    for j, i in enumerate([0, 1, 2, 3, 4, 5, 6, 10]):
-        runs.append((TS.OPTION_SETS[i], [8, 4, 3, 2][j % 4], sd + 100 + j))
+    # second pass over the option sets that exercise the shared objects hardest, other seeds / job counts
+    for j, i in enumerate([0, 1, 0, 1, 3, 5, 6, 7, 11, 13]):
+        runs.append((TS.OPTION_SETS[i], [8, 2, 2, 4, 3][j % 5], sd + 100 + j))
+    return runs
+
+
+def quick_runs(ctx, more):
+    """quick tier: the two per-file showtime modes (the only ones in which a worker prints the shared timer results) with -j4 / -j2,
+    plus one option set that rotates with the seed; `more` (after a broken obligation): a wider selection"""
+    sd = ctx.seed * 1000
+    k = 2 + ctx.seed % (len(TS.OPTION_SETS) - 2)
+    runs = [(TS.OPTION_SETS[0], 4, sd + 1), (TS.OPTION_SETS[1], 2, sd + 2), (TS.OPTION_SETS[k], 4, sd + 3)]
+    if more:
+        runs += [(TS.OPTION_SETS[0], 2, sd + 4), (TS.OPTION_SETS[1], 4, sd + 5), (TS.OPTION_SETS[6], 4, sd + 6), (TS.OPTION_SETS[11], 8, sd + 7)]
     return runs
 
 
@@ -1071,6 +1127,9 @@ def run(ctx, res):
     res.extra["main_events"] = [dict(event=e["name"], where="%s:%d-%d" % (e["file"], e["line_b"], e["line_e"]), justification=e["why"],
                                      unguarded=sorted(set(l for (k, l, h) in X.accesses(e["ir"]) if not h and (M["guards"].get(l)))))
                                 for e in M["main"]]
+    bad, inv = check_sync_inventory(M)
+    res.extra["sync_inventory"] = inv
+    res.oblig("translator:every-mutex-extracted", not bad, "translation", "\n".join(bad[:20]))
     bad = check_member_pointers(M)
     res.oblig("translator:no-member-function-pointers", not bad, "translation", "\n".join(bad[:20]))
     try:
@@ -1123,12 +1182,13 @@ def run(ctx, res):
         tsan_pairs(ctx, res, M)
         tsan_cli(ctx, res, M, exe, thorough_runs(ctx))
         return
-    # quick tier: the dynamic tie (detector controls + all pairs of worker-phase member functions + a few CLI runs) runs whenever the
+    # quick tier: the dynamic tie (detector controls + pairs of worker-phase member functions + a few CLI runs) runs whenever the
     # -fsanitize=thread build of the working tree is up to date or needs at most a handful of translation units; its cold build
-    # (minutes) belongs to the thorough tier.  Skipping is recorded as an explicit assumption, never silently.
+    # (minutes) belongs to the thorough tier.  Skipping is recorded as an explicit assumption, never silently.  After a broken
+    # obligation the tie is NEVER skipped (violation search: the build is brought up to date whatever it costs).
     stale = tsan_staleness()
     res.extra["tsan_quick"] = dict(stale_steps=stale)
-    if stale is None or stale > (40 if undis else 6):
+    if not undis and (stale is None or stale > 6):
         res.assumptions.append("quick tier: the -fsanitize=thread build of the working tree is %s — the dynamic tie (TSan controls, method pairs, CLI runs) was "
                                "SKIPPED in this run; `./check.py C16 --tier thorough` builds it and runs the tie" %
                                ("missing" if stale is None else "stale (%d build steps)" % stale))
@@ -1136,9 +1196,7 @@ def run(ctx, res):
     exe = ctx.build_repo("tsan")
     tsan_harness(ctx, res)
     tsan_pairs(ctx, res, M)
-    allruns = thorough_runs(ctx)
-    k = ctx.seed % len(TS.OPTION_SETS)
-    tsan_cli(ctx, res, M, exe, allruns[:6] if undis else [allruns[k], allruns[(k + 5) % len(TS.OPTION_SETS)]])
+    tsan_cli(ctx, res, M, exe, quick_runs(ctx, bool(undis)))
     res.extra["tsan_quick"]["ran"] = True
 
 
